@@ -1,7 +1,7 @@
 use std::cmp::Ordering;
 use std::fmt::Display;
 
-use rusty_bit_vec::{MIN_INTEGER, MIN_LONG};
+use rusty_bit_vec::{MAX_INTEGER, MAX_LONG, MIN_INTEGER, MIN_LONG};
 
 use crate::fit::FitToType;
 use crate::{UserDefinedTypeValue, VArray, qb_and, qb_or};
@@ -101,6 +101,22 @@ macro_rules! div {
             Ok(($nom as $cast / $div as $cast).fit_to_type())
         }
     };
+}
+
+/// An INTEGER result must stay within -32768..=32767, otherwise it is an Overflow.
+fn checked_integer(result: Option<i32>) -> Result<Variant, VariantError> {
+    match result {
+        Some(i) if (MIN_INTEGER..=MAX_INTEGER).contains(&i) => Ok(Variant::VInteger(i)),
+        _ => Err(VariantError::Overflow),
+    }
+}
+
+/// A LONG result must stay within -2147483648..=2147483647, otherwise it is an Overflow.
+fn checked_long(result: Option<i64>) -> Result<Variant, VariantError> {
+    match result {
+        Some(l) if (MIN_LONG..=MAX_LONG).contains(&l) => Ok(Variant::VLong(l)),
+        _ => Err(VariantError::Overflow),
+    }
 }
 
 // TODO implement standard operators with panics, let the linter guarantee the type compatibility
@@ -217,12 +233,12 @@ impl Variant {
                 _ => Err(VariantError::TypeMismatch),
             },
             Self::VInteger(i_left) => match other {
-                Self::VInteger(i_right) => Ok(Self::VInteger(i_left + i_right)),
-                Self::VLong(l_right) => Ok(Self::VLong(i_left as i64 + l_right)),
+                Self::VInteger(i_right) => checked_integer(i_left.checked_add(i_right)),
+                Self::VLong(l_right) => checked_long((i_left as i64).checked_add(l_right)),
                 _ => other.plus(self),
             },
             Self::VLong(l_left) => match other {
-                Self::VLong(l_right) => Ok(Self::VLong(l_left + l_right)),
+                Self::VLong(l_right) => checked_long(l_left.checked_add(l_right)),
                 _ => other.plus(self),
             },
             _ => Err(VariantError::TypeMismatch),
@@ -245,12 +261,13 @@ impl Variant {
                 _ => other.minus(self).and_then(|x| x.negate()),
             },
             Self::VInteger(i_left) => match other {
-                Self::VInteger(i_right) => Ok(Self::VInteger(i_left - i_right)),
-                Self::VLong(l_right) => Ok(Self::VLong(i_left as i64 - l_right)),
+                Self::VInteger(i_right) => checked_integer(i_left.checked_sub(i_right)),
+                Self::VLong(l_right) => checked_long((i_left as i64).checked_sub(l_right)),
                 _ => other.minus(self).and_then(|x| x.negate()),
             },
             Self::VLong(l_left) => match other {
-                Self::VLong(l_right) => Ok(Self::VLong(l_left - l_right)),
+                Self::VLong(l_right) => checked_long(l_left.checked_sub(l_right)),
+                Self::VInteger(i_right) => checked_long(l_left.checked_sub(i_right as i64)),
                 _ => other.minus(self).and_then(|x| x.negate()),
             },
             _ => Err(VariantError::TypeMismatch),
@@ -273,12 +290,12 @@ impl Variant {
                 _ => other.multiply(self),
             },
             Self::VInteger(i_left) => match other {
-                Self::VInteger(i_right) => Ok(Self::VInteger(i_left * i_right)),
-                Self::VLong(l_right) => Ok(Self::VLong(i_left as i64 * l_right)),
+                Self::VInteger(i_right) => checked_integer(i_left.checked_mul(i_right)),
+                Self::VLong(l_right) => checked_long((i_left as i64).checked_mul(l_right)),
                 _ => other.multiply(self),
             },
             Self::VLong(l_left) => match other {
-                Self::VLong(l_right) => Ok(Self::VLong(l_left * l_right)),
+                Self::VLong(l_right) => checked_long(l_left.checked_mul(l_right)),
                 _ => other.multiply(self),
             },
             _ => Err(VariantError::TypeMismatch),
